@@ -281,6 +281,12 @@ FNUNITS = [
     ("Vgp", "hdf/src/vgp.c", ["vpackvg"], {"ignore_calls": ["HEclear", "HEPclear", "HEpush"]}),
     # C07 / C02: the vdata header encoder (field table, field names = an array of rows)
     ("Vio", "hdf/src/vio.c", ["vpackvs"], {"ignore_calls": ["HEclear", "HEPclear", "HEpush"]}),
+    # C09: the interlace converter (blocks allocated with malloc: arrays of flat addresses and of increments; switch on the interlace; the
+    # `goto done` idiom; memcpy inside one flat memory).  DFKNTsize's result is the entry parameter comp_size_nt.
+    ("Mfgr", "hdf/src/mfgr.c", ["GRIil_convert"],
+     {"ignore_calls": ["HEclear", "HEPclear", "HEpush"], "flat": ["inbuf", "outbuf"], "assume_calls": {"DFKNTsize": "param:comp_size_nt"}}),
+    # C08 / C20: the member insertion with its 16-bit limit test and the doubling of the member arrays (realloc)
+    ("Vgp2", "hdf/src/vgp.c", ["vinsertpair"], {"ignore_calls": ["HEclear", "HEPclear", "HEpush"]}),
     # C12: the bit vector behind the reference-number allocator (struct parameter with a growing buffer: realloc, memset; static tables as
     # globals from H4.Gen.Bitvect; bv_find_next_zero calls the translated bv_set)
     ("Bitvect2", "hdf/src/bitvect.c", ["bv_get", "bv_set", "bv_find_next_zero"],
